@@ -10,10 +10,9 @@
 (* instantiates it a second time as Pinned with Fixes = {} (the transcription of the pinned tree).     *)
 (* Verdicts:                                                                                            *)
 (*   any event     ret # "ok"                            -> bad:crash-<ret>-model-<what Pinned predicts> *)
-(*   Parse         cfg is neither transcription's result -> bad:parse-drift  (equal to either is ok:     *)
-(*                 the two differ only on texts where the pinned tree violates C39/C25 -- invariant      *)
-(*                 RepairsConservative below, checked by TLC with IniRepairs.cfg -- and those texts are  *)
-(*                 judged by their RoundTrip event)                                                      *)
+(*   Parse         cfg is neither transcription's result -> bad:parse-drift  (equal to either is ok: a    *)
+(*                 tree may read like the pinned code or like the repaired code; what C39 demands of     *)
+(*                 what was read is judged by the RoundTrip event of the same text)                      *)
 (*   RoundTrip     cfg2 # cfg1 (or a read returned nil)  -> bad:roundtrip-<class of cfg1>                 *)
 (*                 ptoks is neither transcription's text -> bad:print-drift                               *)
 (*   PrintParse    cfg2 # cfg                            -> bad:printparse                                *)
@@ -81,12 +80,12 @@ RSpec == Init /\ l = 0 /\ verdict = "ok" /\ [][Grow /\ UNCHANGED <<l, verdict>>]
 CSpec == InitC /\ l = 0 /\ verdict = "ok" /\ [][FALSE]_<<text, conf, l, verdict>>
 EmitConf == PrintT(ToJson(conf))
 PrintParsePinned == Pinned!PrintParseOf(conf)     \* the pinned tree, too, reads back what it wrote for a documented configuration
-(* The repairs change what is read only for texts on which the pinned tree crashes or breaks the round trip. *)
-RepairsConservative == (Pinned!Total(text) /\ Pinned!RoundTrip(text)) => Parse(text) = Pinned!Parse(text)
-(* ... and the restricted properties the pinned transcription satisfies (Ini.tla, D1-D3) *)
+(* the restricted properties the pinned transcription satisfies (Ini.tla, D1-D5) *)
 PinnedRestricted == Pinned!TotalPinned(text) /\ Pinned!RoundTripPlain(text) /\ Pinned!NoEscapeTotal(text)
-(* ParseTotal, NeverRejects, ReadWriteRead, RepairsConservative and PinnedRestricted in one invariant that reads the    *)
-(* text once per transcription (the check uses it for speed; a violation is diagnosed with the separate invariants)     *)
+(* ParseTotal, NeverRejects, ReadWriteRead and PinnedRestricted in one invariant that reads the text once per         *)
+(* transcription (the check uses it for speed; a violation is diagnosed with the separate invariants).  The repairs    *)
+(* are not conservative: s]x={x\<nl><nl>\} reads as nothing on the pinned tree (the string swallows the newline and the *)
+(* escaped brace) and as the tuple {x} with the repairs.                                                                *)
 Combined ==
   LET pf == Parse(text)
       pp == Pinned!Parse(text)
@@ -95,7 +94,6 @@ Combined ==
       pinnedRT == rp.st = "Done" /\ rp.cfg = pp.cfg
   IN /\ pf.st = "Done"                                                   \* ParseTotal, NeverRejects
      /\ rf.st = "Done" /\ rf.cfg = pf.cfg                                \* ReadWriteRead
-     /\ (pp.st = "Done" /\ pinnedRT) => pf = pp                          \* RepairsConservative
      /\ pp.st \in {"Done", "NullDeref", "Abort"}                         \* PinnedRestricted ...
      /\ (pp.st = "Done" /\ CfgPlain(pp.cfg)) => pinnedRT
      /\ pp.st = "Abort" => HasTok(text, {"\\"})
